@@ -117,6 +117,34 @@ fn main() {
             shards.push((n, c, chunks));
         }
     }
+    // cold start: the first classification requests of the process, for every size and both types, come from 8
+    // threads released together (lazily initialised process-wide tables have their race here, once)
+    {
+        let mut rng = Rng::new(seed ^ 0xc01d);
+        let mut total = 0u64;
+        for n in 1..=MAX_N {
+            let mut evs: Vec<Ev> = Vec::new();
+            for ty in ["LutN", "Lut"] {
+                if ty == "LutN" && n > tbl::MAX_STATIC {
+                    continue;
+                }
+                for _ in 0..3 {
+                    let v = rng.below(n);
+                    // members of a class (not None): a literal, a gate with another function
+                    let g = gen::random_blocks(n, &mut rng);
+                    let lit = Model::var(n, v);
+                    let f = match rng.below(3) {
+                        0 => lit.to_blocks(),
+                        1 => Model::from_blocks(n, &g).and(&lit).to_blocks(),
+                        _ => Model::from_blocks(n, &g).or(&lit).to_blocks(),
+                    };
+                    evs.push(Ev::new("classify", ty, n).tab(&f).int(v).st("cold-start"));
+                }
+            }
+            total += run_events_concurrently(&mut ctx, seed, cli.threads, &evs, std::time::Duration::from_millis(100), |c, e| exec_dispatch(c, e));
+        }
+        ctx.bump("cold-start:first-requests", total);
+    }
     run_sharded(&mut ctx, cli.threads, shards.len(), |ctx, k| {
         let (n, c, chunks) = shards[k];
         let mut rng = Rng::new(seed ^ ((n as u64) << 28) ^ (c as u64).wrapping_mul(77));
